@@ -135,7 +135,7 @@ example : ∀ cls hex, kidClasses C03.kidPatternRx = some (cls, hex) →
     validateKID cls hex C03.validateKIDRefusedNames (ascii "did:web:nodeA%3A10443:iam:aa00a18b#0") = true := by
   intro cls hex h
   have : kidClasses C03.kidPatternRx = some ([(32, 32), (35, 35), (45, 46), (48, 58), (65, 90), (95, 95), (97, 122)], [(48, 57), (65, 70), (97, 102)]) := by decide
-  rw [this] at h; cases h; decide
+  rw [this] at h; cases h; decide +kernel
 
 
 /-- **kid_confined (Vault path shape).** `privateKeyPath(prefix, name)` for a validated name and a non-empty prefix
@@ -168,7 +168,7 @@ theorem pattern_alone_does_not_confine_vault :
       vaultKeyPath (ascii "kv") C03.vaultKeyPathName [DOT] = ascii "kv/nuts-private-keys" := by
   intro cls hex h
   have : kidClasses C03.kidPatternRx = some ([(32, 32), (35, 35), (45, 46), (48, 58), (65, 90), (95, 95), (97, 122)], [(48, 57), (65, 70), (97, 102)]) := by decide
-  rw [this] at h; cases h; decide
+  rw [this] at h; cases h; decide +kernel
 
 /-- non-vacuity: path-like and percent-encoded names; the first two are refused, the third is accepted and stays
     one directory entry -/
@@ -180,7 +180,7 @@ example : ∀ cls hex, kidClasses C03.kidPatternRx = some (cls, hex) →
       = ascii "/data/crypto/..%2F..%2Fetc%2Fpasswd_private.pem" := by
   intro cls hex h
   have : kidClasses C03.kidPatternRx = some ([(32, 32), (35, 35), (45, 46), (48, 58), (65, 90), (95, 95), (97, 122)], [(48, 57), (65, 70), (97, 102)]) := by decide
-  rw [this] at h; cases h; decide
+  rw [this] at h; cases h; decide +kernel
 
 /-! ### every backend is wrapped, and the wrapper validates every caller-chosen key name -/
 
@@ -270,11 +270,12 @@ theorem backend_touched_only_at_valid_or_new_names (s : Store) (op : Op) (name :
     by_cases e : name = n
     · exact Or.inr ⟨f, by rw [e]⟩
     · exfalso; apply h
-      unfold step new wNew Store.key
-      simp only
-      split
-      · rfl
-      · cases f <;> simp [alGet_put, e]
+      have hk : ({ s with nextKey := s.nextKey + 1 } : Store).key n = s.key n := rfl
+      unfold step new wNew
+      simp only [hk]
+      cases hkn : s.key n with
+      | some _ => rfl
+      | none => cases f <;> simp [Store.key, alGet_put, e]
   | delete k =>
     left
     unfold step delete at h
@@ -319,25 +320,40 @@ theorem signature_verifies_with_published_key_only {Pub Msg Sig : Type}
 
 end binding
 
-/-- non-vacuity + the shape of the behaviour: two keys, a re-link, a delete -/
+instance (s : Store) (n : String) : Decidable (FreshName s n) := by unfold FreshName; infer_instance
+
+instance decFreshHist (valid : String → Bool) : (s : Store) → (ops : List Op) → Decidable (FreshHist valid s ops)
+  | _, [] => isTrue trivial
+  | s, op :: rest =>
+    have := decFreshHist valid (step valid s op) rest
+    match op with
+    | .new n f => by unfold FreshHist; exact inferInstance
+    | .link .. => by unfold FreshHist; exact inferInstance
+    | .delete .. => by unfold FreshHist; exact inferInstance
+    | .migrate => by unfold FreshHist; exact inferInstance
+
+def exValid : String → Bool := fun n => n != "../x"
+def exOps : List Op :=
+  [.new "u1" (some "did:a#1"), .new "u2" (some "did:b#1"), .link "alias" "u1" "1", .link "evil" "../x" "1", .delete "did:b#1"]
+
+/-- non-vacuity + the shape of the behaviour: two keys, an alias, a link to a path-like name, a delete -/
 example :
-    let v : String → Bool := fun n => n != "../x"
-    let ops := [Op.new "u1" (some "did:a#1"), .new "u2" (some "did:b#1"), .link "alias" "u1" "1", .link "evil" "../x" "1", .delete "did:b#1"]
-    FreshHist v {} ops ∧
-    (run v {} ops).pubd "did:a#1" = some 0 ∧
-    signKey v (run v {} ops) "did:a#1" = .ok 0 ∧ signKey v (run v {} ops) "alias" = .ok 0 ∧
-    signKey v (run v {} ops) "did:b#1" = .error .privateKeyNotFound ∧
-    signKey v (run v {} ops) "evil" = .error .invalidKid ∧
-    signKey v (run v {} ops) "nobody" = .error .privateKeyNotFound := by
-  decide
+    FreshHist exValid {} exOps ∧
+    (run exValid {} exOps).pubd "did:a#1" = some 0 ∧
+    signKey exValid (run exValid {} exOps) "did:a#1" = .ok 0 ∧ signKey exValid (run exValid {} exOps) "alias" = .ok 0 ∧
+    signKey exValid (run exValid {} exOps) "did:b#1" = .error .privateKeyNotFound ∧
+    signKey exValid (run exValid {} exOps) "evil" = .error .invalidKid ∧
+    signKey exValid (run exValid {} exOps) "nobody" = .error .privateKeyNotFound := by
+  decide +kernel
+
+def exReuse : List Op := [.new "u1" (some "A"), .link "B" "u1" "1", .delete "B", .new "u1" none]
 
 /-- without the freshness contract the binding can break (so the hypothesis is not decoration): key name reuse after
     a delete through an alias re-points a published kid to a different key pair -/
 example :
-    let v : String → Bool := fun _ => true
-    let ops := [Op.new "u1" (some "A"), .link "B" "u1" "1", .delete "B", .new "u1" none]
-    (run v {} ops).pubd "A" = some 0 ∧ signKey v (run v {} ops) "A" = .ok 1 := by
-  decide
+    ¬ FreshHist (fun _ => true) {} exReuse ∧
+    (run (fun _ => true) {} exReuse).pubd "A" = some 0 ∧ signKey (fun _ => true) (run (fun _ => true) {} exReuse) "A" = .ok 1 := by
+  decide +kernel
 
 /-- the lookups are by (kid → reference → backend) in every entry point that needs the private key, and nowhere else -/
 theorem fact_key_lookups :
@@ -349,3 +365,184 @@ theorem fact_key_lookups :
       ("Crypto.Decrypt", ["findKeyReferenceByKid(kid)", "GetPrivateKey(keyRef.KeyName,keyRef.Version)"]),
       ("Crypto.Delete", ["findKeyReferenceByKid(kid)"]), ("Crypto.Exists", ["findKeyReferenceByKid(kid)"]),
       ("Crypto.Resolve", ["findKeyReferenceByKid(kid)", "GetPrivateKey(keyRef.KeyName,keyRef.Version)"])] := by decide
+
+/-! ## 3. A JWS signed by the node never carries a private key in its `jwk` header -/
+
+/-- **signjws_no_private_jwk.** For EVERY caller supplied header map: if package-level `SignJWS` does not refuse,
+    the protected header it signs (a) contains only headers the caller supplied, (b) contains a `jwk` only if that
+    key's raw Go type is not assignable to `crypto.Signer`, and (c) then carries no `kid`. -/
+theorem signjws_no_private_jwk (h out : Headers) (hok : signJWSHeaders h = .ok out) :
+    (∀ n v, hget out n = some v → hget h n = some v) ∧
+    (∀ rt id, hget out "jwk" = some (.jwk rt id) → assignableToSigner rt = false ∧ hget out "kid" = none) := by
+  unfold signJWSHeaders at hok
+  split at hok
+  · cases hok
+  · split at hok
+    · rename_i rt id hj
+      split at hok
+      · cases hok
+      · rename_i hns
+        cases hok
+        refine ⟨?_, ?_⟩
+        · intro n v hv
+          unfold hget at hv ⊢
+          simp only [alGet_del] at hv
+          split at hv
+          · cases hv
+          · split at hv
+            · cases hv
+            · exact hv
+        · intro rt' id' hv
+          unfold hget at hv hj ⊢
+          simp only [alGet_del] at hv ⊢
+          simp only [show ("jwk" = "alg") = False by decide, show ("jwk" = "kid") = False by decide, if_false, hj] at hv
+          cases hv
+          exact ⟨by simpa using hns, by simp⟩
+    · rename_i hnj
+      cases hok
+      refine ⟨?_, ?_⟩
+      · intro n v hv
+        unfold hget at hv ⊢
+        simp only [alGet_del] at hv
+        split at hv
+        · cases hv
+        · exact hv
+      · intro rt id hv
+        exfalso
+        unfold hget at hv
+        simp only [alGet_del, show ("jwk" = "alg") = False by decide, if_false] at hv
+        exact hnj rt id hv
+
+/-- the key store entry points `Crypto.SignJWS` / `MemoryJWTSigner.SignJWS`: same guarantee, the key must exist, and
+    when no `jwk` is present the `kid` header is the REQUESTED kid whatever the caller put there -/
+theorem store_signjws_headers (found : Bool) (h out : Headers) (kid : String)
+    (hok : storeSignJWSHeaders found h kid = .ok out) :
+    found = true ∧
+    (∀ rt id, hget out "jwk" = some (.jwk rt id) → assignableToSigner rt = false ∧ hget out "kid" = none) ∧
+    ((∀ rt id, hget (dedup h) "jwk" ≠ some (.jwk rt id)) → hget out "kid" = some (.str kid)) := by
+  unfold storeSignJWSHeaders at hok
+  split at hok
+  · cases hok
+  · rename_i hf
+    refine ⟨by simpa using hf, (signjws_no_private_jwk _ out hok).2, ?_⟩
+    intro hnj
+    unfold signJWSHeaders at hok
+    split at hok
+    · cases hok
+    · split at hok
+      · rename_i rt id hj
+        exfalso
+        unfold hget hput at hj
+        simp only [alGet_put, show ("jwk" = "kid") = False by decide, if_false] at hj
+        exact hnj rt id hj
+      · cases hok
+        unfold hget hput
+        simp [alGet_del, alGet_put]
+
+/-- every key type the key stores can hold or create (`util.PemToPrivateKey`, `spi.GenerateKeyPair`) is a
+    `crypto.Signer`, hence refused as a `jwk` header by SignJWS and classified private by the DPoP parser -/
+theorem fact_store_key_types_are_signers :
+    C03.pemPrivateKeyTypes ≠ [] ∧
+    (∀ t ∈ C03.generateKeyPairType :: C03.pemPrivateKeyTypes, assignableToSigner t = true ∧ dpopJwkIsPrivate t = true) := by
+  decide
+
+/-- so: a private key of any type the key store can hold, offered as `jwk` header under ANY other headers, is refused -/
+theorem store_key_as_jwk_header_refused (h : Headers) (t id : String)
+    (ht : t ∈ C03.generateKeyPairType :: C03.pemPrivateKeyTypes) (hj : hget h "jwk" = some (.jwk t id)) :
+    signJWSHeaders h = .error .setHeader ∨ signJWSHeaders h = .error .privateJwk := by
+  unfold signJWSHeaders
+  split
+  · exact Or.inl rfl
+  · right
+    simp only [hj, (fact_store_key_types_are_signers.2 t ht).1, if_true]
+
+/-- SignJWS in the source still has the modelled order: headers set, `jwk` present?, `kid` removed, Raw() into a
+    `crypto.Signer`, refusal when that succeeds — all before `jws.Sign` -/
+theorem fact_signjws_sequence :
+    C03.signJWSRawTargetType = "crypto.Signer" ∧
+    C03.signJWSSeq = ["if err != nil", "headers.Set(key)", "if headers.JWK() != nil", "headers.Remove(jwk.KeyIDKey)",
+      "if err == nil", "headers.JWK().Raw(&jwkAsPrivateKey)",
+      "return-error \"refusing to sign JWS with private key in JWK header\"",
+      "if err != nil", "if detachedPayload", "jws.Sign()", "jws.Sign()", "if err != nil"] := by decide
+
+/-- KNOWN LIMIT of the mechanism (not of the property as stated, which is about keys created or held by the node —
+    those are all `crypto.Signer`s): the rule is typed on `crypto.Signer`, so a caller-made X25519 private JWK or a
+    symmetric `oct` JWK passes; and `SignJWT` has no such rule at all. -/
+theorem signjws_rule_is_signer_typed :
+    signJWSHeaders [("jwk", .jwk "x25519.PrivateKey" "x")] = .ok [("jwk", .jwk "x25519.PrivateKey" "x")] ∧
+    signJWSHeaders [("jwk", .jwk "[]uint8" "oct")] = .ok [("jwk", .jwk "[]uint8" "oct")] ∧
+    signJWTHeaders [("jwk", .jwk "*ecdsa.PrivateKey" "p")] = .ok [("jwk", .jwk "*ecdsa.PrivateKey" "p")] := by
+  decide +kernel
+
+def view (r : Except JErr Headers) : Except JErr (Option HVal × Option HVal × Option HVal) :=
+  r.map fun o => (hget o "kid", hget o "jwk", hget o "typ")
+
+example :
+  view (storeSignJWSHeaders true [("kid", .str "forged"), ("typ", .str "x"), ("jwk", .jwk "*ecdsa.PublicKey" "pub")] "did:a#1")
+    = .ok (none, some (.jwk "*ecdsa.PublicKey" "pub"), some (.str "x")) ∧
+  view (storeSignJWSHeaders true [("kid", .str "forged"), ("typ", .str "x")] "did:a#1")
+    = .ok (some (.str "did:a#1"), none, some (.str "x")) ∧
+  storeSignJWSHeaders true [("jwk", .jwk "*ecdsa.PrivateKey" "priv")] "did:a#1" = .error .privateJwk ∧
+  storeSignJWSHeaders false [] "did:a#1" = .error .keyNotFound := by
+  decide +kernel
+
+/-! ## 4. Inventory of the code that can reach private-key typed values (over the EXTRACTED facts) -/
+
+def isTestSupport (f : Fn) : Bool := f.path.getLast? == some "test.go" || f.path.contains "test"
+
+/-- files outside `crypto/` that are allowed to handle a private key, with the reason -/
+def allowedOutside : List String :=
+  [ "core/server_config.go"     -- the node's TLS certificate/key file (tls.LoadX509KeyPair), not a key store key
+  , "http/user/session.go" ]    -- session-bound user wallet key (crypto.GenerateJWK), documented low-assurance use
+
+/-- the key store engine: the files whose exported functions are the node-internal API to private keys -/
+def engineFiles : List String :=
+  ["crypto/crypto.go", "crypto/jwx.go", "crypto/dpop.go", "crypto/decryptor.go", "crypto/memory.go", "crypto/ecies.go",
+   "crypto/dpop/dpop.go"]
+
+/-- result types that cannot hold a private key: tokens / signatures / cipher- or plaintext, public keys, errors -/
+def safeResults : List String :=
+  ["string", "[]byte", "error", "bool", "crypto.PublicKey", "map[string]interface{}", "*orm.KeyReference", "jwa.SignatureAlgorithm"]
+
+/-- **api_surface_by_kid** (a statement about the regenerated inventory; the go/ast extractor is trusted).
+    (1) every function that obtains, generates, encodes or mentions a private-key typed value lies under `crypto/`,
+        is test support, or is one of the two listed exceptions;
+    (2) every EXPORTED function of the key store engine in that set returns only public-key / signature /
+        ciphertext-plaintext / error types — except `GenerateJWK` (in-memory session keys, never key store keys);
+    (3) the only functions that call the storage SPI's `GetPrivateKey` (or the unexported `getPrivateKey`) outside
+        `crypto/storage/` are the engine's own methods and the fs→vault migration command. -/
+theorem api_surface_by_kid :
+    (∀ f ∈ C03.keyTouching, f.path.head? = some "crypto" ∨ isTestSupport f = true ∨ f.file ∈ allowedOutside) ∧
+    (∀ f ∈ C03.keyTouching, f.file ∈ engineFiles → f.exported = true → f.name ≠ "GenerateJWK" →
+        ∀ r ∈ f.results, r ∈ safeResults) ∧
+    ((C03.keyTouching.filter (fun f => f.kinds.contains "getpriv" && !(f.path.take 2 == ["crypto", "storage"]))).map
+        (fun f => (f.file, f.name)) =
+      [("crypto/cmd/cmd.go", "exportToOtherStorage"), ("crypto/crypto.go", "Crypto.Resolve"),
+       ("crypto/decryptor.go", "Crypto.Decrypt"), ("crypto/dpop.go", "Crypto.SignDPoP"),
+       ("crypto/jwx.go", "Crypto.SignJWT"), ("crypto/jwx.go", "Crypto.SignJWS"), ("crypto/jwx.go", "Crypto.DecryptJWE"),
+       ("crypto/jwx.go", "Crypto.getPrivateKey")]) := by
+  decide +kernel
+
+/-- the functions whose RESULT type is, or can hold, a private key — pinned; a new one changes this fact and the
+    check reports -/
+theorem private_key_typed_results_pinned :
+    (C03.keyTouching.filter (fun f => !f.privResults.isEmpty)).map (fun f => (f.file, f.name)) =
+      [("crypto/jwx.go", "GenerateJWK"), ("crypto/jwx.go", "Crypto.getPrivateKey"),
+       ("crypto/storage/azure/keyvault.go", "Keyvault.GetPrivateKey"), ("crypto/storage/external/client.go", "APIClient.GetPrivateKey"),
+       ("crypto/storage/fs/fs.go", "fileSystemBackend.GetPrivateKey"), ("crypto/storage/spi/interface.go", "GenerateKeyPair"),
+       ("crypto/storage/spi/mock.go", "MockStorage.GetPrivateKey"), ("crypto/storage/spi/wrapper.go", "wrapper.GetPrivateKey"),
+       ("crypto/storage/vault/vault.go", "vaultKVStorage.GetPrivateKey"), ("crypto/test.go", "memoryStorage.GetPrivateKey"),
+       ("crypto/test.go", "NewTestKey"), ("crypto/test.go", "TestKey.Signer"), ("crypto/test.go", "TestKey.Private"),
+       ("crypto/test/keys.go", "GenerateRSAKey"), ("crypto/test/keys.go", "GenerateECKey"),
+       ("crypto/util/pem.go", "PemToPrivateKey"), ("http/user/session.go", "generateUserSessionJWK"),
+       ("vdr/test.go", "TestMethodDIDAPrivateKey"), ("vdr/test.go", "TestMethodDIDBPrivateKey")] ∧
+    -- the one exported, non-test function of the engine files in this list:
+    (C03.keyTouching.filter (fun f => !f.privResults.isEmpty && f.exported && engineFiles.contains f.file)).map (·.name)
+      = ["GenerateJWK"] := by
+  decide +kernel
+
+/-- the inventory is not empty / degenerate: it covers the whole tree -/
+theorem fact_inventory_nontrivial : 400 ≤ C03.inventoryFiles ∧ 4000 ≤ C03.inventoryFuncs ∧ 50 ≤ C03.keyTouching.length := by
+  decide
+
+end Nuts.C03.Props
